@@ -325,13 +325,16 @@ class KMeansMachine(BaseEstimator):
         data = da.array(data)
         data.rechunk(1, data.shape[-1])  # Prevents issue with large arrays.
         logger.debug("Get k-means centroids")
-        self.centroids_ = k_init(
-            X=data,
-            n_clusters=self.n_clusters,
-            init=self.init_method,
-            random_state=self.random_state,
-            max_iter=self.init_max_iter,
-            oversampling_factor=self.oversampling_factor,
+        # copy: with an array `init_method`, k_init hands the caller's array back
+        self.centroids_ = np.array(
+            k_init(
+                X=data,
+                n_clusters=self.n_clusters,
+                init=self.init_method,
+                random_state=self.random_state,
+                max_iter=self.init_max_iter,
+                oversampling_factor=self.oversampling_factor,
+            )
         )
         logger.debug("End of k-means initialization")
 
